@@ -58,7 +58,7 @@ def run(ctx):
     cases = ctx.path("cases.ndjson")
     n = P.generate(ctx, "Gen_Encaps", "Gen_Encaps_quick.cfg" if q else "Gen_Encaps_thorough.cfg", cases)
     trace = ctx.path("trace.ndjson")
-    rep = vlib.run_driver("drv_encaps", ["c18", "--cases", cases, "--out", trace, "--random", 60 if q else 2000], env=ctx.env())
+    rep = vlib.run_driver("drv_encaps", ["c18", "--cases", cases, "--out", trace, "--random", 60 if q else 2000, "--big"], env=ctx.env())
     uids = [u for u, _ in rep["encoder_syntaxes"]]
     for need in ("1.2.840.10008.1.2.1.98", "1.2.840.10008.1.2.8.1", "1.2.840.10008.1.2.4.50"):
         if need not in uids:
@@ -74,6 +74,13 @@ def run(ctx):
     ctx.cov["traces_validated_against_impl"] += rep["events"]
     ctx.cov["distinct_nontrivial"] += rep["events"]
     for ln, why, e in fails:
+        if e["ev"] == "helper_big":
+            for w in why:
+                ctx.violation("from_vec: %s (frame of 16 MiB or more)" % NAMES.get(w, w),
+                              "event %d: frame_len=%s frag_size=%s fragment runs=%s total=%s probes=%s" % (
+                                  ln, e["frame_len"], e["frag_size"], e["runs"], e["total"], e["probes"]),
+                              {"event": e, "failed_checks": why})
+            continue
         what = e.get("api") if e["ev"] == "helper" else "transcode to " + str(e.get("ts_name"))
         multi = "multi-frame" if (len(e["frames"]) if e["ev"] == "helper" else e["frames"]) > 1 else "single-frame"
         for w in why:
